@@ -21,7 +21,7 @@ func init() {
 		Rule: "polygon phase (a quarter of the lattice spellings are repeated translated by 2^20..2^30, where the area is still exactly representable; 30% of the spellings are handed over with rings laid out as consecutive sub-slices of one backing array): case = one valid lattice polygon (star-shaped or rectilinear integer shell, 0-4 lattice holes in disjoint cells strictly inside) or multi-polygon of 1-3 disjoint members, explored over its spelling orbit (every subset of rings reversed for <= 3 rings, sampled above; random rotation of each ring's start vertex; closed/unclosed spelling per ring) and a float image under a random similarity transform; Area/Centroid (geom and op) compared with exact rational shoelace measures (== on the integer grid, 1e-10 relative on floats); " +
 			"line phase: random and integer line strings (repeated vertices included) with query points on the line, beyond its ends and at random: Length, Distance vs 200-bit references; Point.Buffer vs the regular n-gon; " +
 			"an evaluation is one measured call; non-trivial = shape with a hole or a reversed/rotated spelling whose measure was compared; distinct by spelling hash",
-		Assumptions: []string{"Polygon.Centroid / op.Centroid / op.Area are exercised only under their documented preconditions (closed rings, shell and holes oppositely oriented), as the property states", "float images keep |translation| <= 10 x size so that shoelace cancellation stays far below the 1e-10 tolerance"},
+		Assumptions: []string{"Polygon.Centroid / op.Centroid / op.Area are exercised only under their documented preconditions (closed rings, shell and holes oppositely oriented), as the property states", "float images up to 10 x size away are judged to 1e-10; images 10^2..10^6 x size away to 1e-10 + 1e-14 x (offset/size), the accuracy of a sum over coordinate differences"},
 		Phases: []core.Phase{
 			{Name: "polygon", NumCases: func(t string) int {
 				if t == "thorough" {
@@ -40,7 +40,7 @@ func init() {
 		Floors: func(t string) map[string]int64 {
 			return map[string]int64{"orbit.reversed_single_ring": 1000, "orbit.unclosed": 1000, "orbit.all_reversed": 500, "shape.with_holes": 500, "shape.multipolygon": 300,
 				"centroid.MultiPolygon": 1000, "centroid.Polygon": 500, "area.exact_equal": 5000, "area.float": 1000, "op.area": 500, "op.centroid": 500,
-				"distance.on_line": 500, "distance.beyond_end": 500, "distance.zero_length_segment": 200, "buffer": 500, "length": 1000, "line.long": 300, "storage.rings_share_one_backing_array": 1000, "shape.far_from_origin": 1000, "line.very_long": 100}
+				"distance.on_line": 500, "distance.beyond_end": 500, "distance.zero_length_segment": 200, "buffer": 500, "length": 1000, "line.long": 300, "storage.rings_share_one_backing_array": 1000, "shape.far_from_origin": 1000, "shape.float_far_from_origin": 500, "shape.island_in_a_hole_of_another_member": 100, "line.very_long": 100, "line.extreme_magnitude": 200}
 		},
 	})
 }
@@ -210,6 +210,30 @@ func runPolygon(c *core.Ctx) {
 		mY.Add(mY, new(big.Rat).Mul(a, cy))
 		nr += len(bases[m].rings)
 	}
+	if r.Chance(0.3) {
+		// an island: one more member lying inside a (rectangular) hole of the first member -
+		// disjoint from it, but inside its shell
+		for _, hole := range bases[0].rings[1:] {
+			if len(hole) == 4 && hole[0].Y == hole[1].Y && hole[1].X == hole[2].X && hole[2].Y == hole[3].Y && hole[3].X == hole[0].X &&
+				hole[1].X-hole[0].X >= 4 && hole[2].Y-hole[1].Y >= 4 {
+				isl := base{rings: []geom.Path{rect(hole[0].X+1, hole[0].Y+1, hole[1].X-1, hole[2].Y-1)}}
+				if r.Bool() && hole[1].X-hole[0].X >= 6 && hole[2].Y-hole[1].Y >= 6 {
+					isl.rings = append(isl.rings, rect(hole[0].X+2, hole[0].Y+2, hole[1].X-2, hole[2].Y-2)) // with a pond of its own
+				}
+				a, cx, cy := isl.measures()
+				totalA.Add(totalA, a)
+				mX.Add(mX, new(big.Rat).Mul(a, cx))
+				mY.Add(mY, new(big.Rat).Mul(a, cy))
+				nr += len(isl.rings)
+				// anywhere in the member list
+				k := r.Intn(len(bases) + 1)
+				bases = append(bases[:k:k], append([]base{isl}, bases[k:]...)...)
+				nm++
+				c.Count("shape.island_in_a_hole_of_another_member")
+				break
+			}
+		}
+	}
 	wantA := exact.F(totalA)
 	wantCx := exact.F(new(big.Rat).Quo(mX, totalA))
 	wantCy := exact.F(new(big.Rat).Quo(mY, totalA))
@@ -292,6 +316,16 @@ func runPolygon(c *core.Ctx) {
 				sc := math.Pow(10, r.Range(-3, 3))
 				th := r.Range(0, 2*math.Pi)
 				tx, ty := r.Range(-10, 10)*100*sc, r.Range(-10, 10)*100*sc
+				ftol, fkind := 1e-10, "float"
+				if r.Chance(0.3) {
+					// far from the origin: 10^2 .. 10^6 times the size of the figure away (projected
+					// map coordinates). A sum of products of coordinate DIFFERENCES stays accurate to
+					// about n * 2^-53 * (offset/size); one of absolute coordinates to its square.
+					ratio := math.Pow(10, r.Range(2, 6))
+					tx, ty = ratio*100*sc*float64(1-2*r.Intn(2)), ratio*100*sc*r.Range(-1, 1)
+					ftol, fkind = 1e-10+1e-14*ratio, "float-far-from-origin"
+					c.Count("shape.float_far_from_origin")
+				}
 				co, si := math.Cos(th), math.Sin(th)
 				img := make(geom.MultiPolygon, nm)
 				for m, pg := range mp {
@@ -308,7 +342,7 @@ func runPolygon(c *core.Ctx) {
 				}
 				// exact measures of the image itself (its vertices are rounded floats)
 				ia, ix, iy := imageMeasures(img)
-				checkSpelling(c, img, sps, ia, ix, iy, 1e-10, 1000*sc, "float", mask)
+				checkSpelling(c, img, sps, ia, ix, iy, ftol, 1000*sc, fkind, mask)
 			}
 		}
 	}
@@ -464,6 +498,11 @@ func runLine(c *core.Ctx) {
 	scale := 1.0
 	if !integer {
 		scale = math.Pow(10, r.Range(-3, 4))
+		if r.Chance(0.06) {
+			// magnitudes whose squares overflow or underflow (1e155 .. 1e160 and their reciprocals)
+			scale = math.Pow(10, r.Range(155, 160)*float64(1-2*r.Intn(2)))
+			c.Count("line.extreme_magnitude")
+		}
 	}
 	pt := func() geom.Point {
 		if integer {
